@@ -244,6 +244,16 @@ def _compare_nested(got, allv, cell, example, prefix):
 @st.composite
 def strategy(draw):
     cs = draw(gens.case_set(1, 4, 8))
+    if len(cs["cases"]) >= 2 and draw(st.sampled_from([False, False, True])):
+        # two values of one (numeric) argument that differ in the last bit:
+        # they are two coordinates
+        for j_ in range(len(cs["args"])):
+            col = [c[j_] for c in cs["cases"]]
+            if all(isinstance(v, (int, float)) and abs(v - 0.3) > 1e-6
+                   for v in col):
+                cs["cases"][0][j_] = 0.3
+                cs["cases"][1][j_] = 0.30000000000000004
+                break
     rest = [n for n in gens.ARG_NAMES if n not in cs["args"]]
     nsub = draw(st.sampled_from([0, 0, 1, 2]))
     sub_names = draw(st.lists(st.sampled_from(rest), min_size=nsub,
